@@ -35,6 +35,7 @@ type gsCase struct {
 	hold    int    // ticks after the signal at which the in-flight request is allowed to proceed
 	inherit bool   // listener socket inherited (hot-upgrade construction path) instead of bound by the listener
 	succ    bool   // a successor server inherits the listening socket through ListenerFile before the old one shuts down
+	extra   bool   // multiplexed protocols: a second request is begun on the SAME connection right after the signal
 }
 
 func (g gsCase) String() string {
@@ -44,8 +45,8 @@ func (g gsCase) String() string {
 		}
 		return 0
 	}
-	return fmt.Sprintf("gs proto=%s stage=%d phase=%s idle=%d bg=%d drain=%d hold=%d inh=%d succ=%d",
-		g.proto, g.stage, g.phase, g.idle, g.bg, g.drain, g.hold, b(g.inherit), b(g.succ))
+	return fmt.Sprintf("gs proto=%s stage=%d phase=%s idle=%d bg=%d drain=%d hold=%d inh=%d succ=%d extra=%d",
+		g.proto, g.stage, g.phase, g.idle, g.bg, g.drain, g.hold, b(g.inherit), b(g.succ), b(g.extra))
 }
 
 var planSeq int64
@@ -94,7 +95,25 @@ func probeNew(proto, addr string) string {
 	return "rst"
 }
 
+// runGS runs one scenario; a run disturbed by a scheduling stall is repeated (its timing preconditions were not met).
 func runGS(c *hx.Ctx, g gsCase) {
+	for attempt := 0; ; attempt++ {
+		j := startJitter()
+		impl, counts := runGSOnce(c, g)
+		if w := j.worst(); w > maxJitter && attempt < 4 {
+			c.Count("gs.repeated-after-stall")
+			continue
+		}
+		c.Emit("C11", g.String(), impl)
+		for _, k := range counts {
+			c.Count(k)
+		}
+		return
+	}
+}
+
+func runGSOnce(c *hx.Ctx, g gsCase) (string, []string) {
+	var counts []string
 	var inh net.Listener
 	if g.inherit {
 		l, err := net.Listen("tcp", "127.0.0.1:0")
@@ -223,6 +242,24 @@ func runGS(c *hx.Ctx, g gsCase) {
 		tReturn = time.Since(t0)
 		close(done)
 	}()
+	// multiplexed connection: the client, which has not yet seen any go-away, begins another request on it
+	extraRes := "na"
+	if g.extra {
+		time.Sleep(15 * time.Millisecond)
+		eid, ep := newPlan(false, true, 32)
+		defer plans.Delete(eid)
+		eh, eb := main.request(eid, 256)
+		if _, err := main.conn().Write(append(append([]byte{}, eh...), eb...)); err != nil {
+			extraRes = "fail"
+		} else {
+			to := 60 * time.Millisecond // HTTP/2: the stream is ignored, nothing will come
+			if g.proto == "bolt" {
+				to = 3 * time.Second // served: the answer comes at once
+			}
+			extraRes = okTok(main.readResp(ep, to))
+		}
+		main.(interface{ rewind() }).rewind()
+	}
 	// the in-flight request may proceed `hold` ticks after the signal
 	time.Sleep(time.Until(t0.Add(time.Duration(g.hold) * tick)))
 	close(bgStop)
@@ -233,7 +270,7 @@ func runGS(c *hx.Ctx, g gsCase) {
 		_, reqErr = main.conn().Write(full[sent:])
 	}
 	if reqErr == nil {
-		reqErr = main.readResp(p, 5*time.Second)
+		reqErr = main.readResp(p, 20*time.Second)
 	}
 	bgWG.Wait()
 	select {
@@ -245,7 +282,7 @@ func runGS(c *hx.Ctx, g gsCase) {
 	if tReturn < tContinue {
 		exitFirst = 1
 	}
-	c.Count(fmt.Sprintf("gs.return_vs_continue_ms=%+d", roundTo((tReturn-tContinue).Milliseconds(), 50)))
+	counts = append(counts, fmt.Sprintf("gs.return_vs_continue_ms=%+d", roundTo((tReturn-tContinue).Milliseconds(), 50)))
 
 	// after the listener stopped: a new connection, and a new request on an existing keep-alive connection
 	newc := probeNew(g.proto, m.addr)
@@ -281,17 +318,14 @@ func runGS(c *hx.Ctx, g gsCase) {
 		cga += k.goAways(300 * time.Millisecond)
 	}
 	lst := network.VerifListenerState(m.ln)
-	impl := fmt.Sprintf("req=%s new=%s exitfirst=%d goaway=%s cga=%d late=%s bgfail=%d bgretry=%d lstate=%d shut=%s",
-		okTok(reqErr), newc, exitFirst, strings.Join(evs, ","), cga, late, atomic.LoadInt32(&bgFail), atomic.LoadInt32(&bgRetry), lst, okTok(shutErr))
+	impl := fmt.Sprintf("req=%s new=%s exitfirst=%d goaway=%s cga=%d late=%s bgfail=%d bgretry=%d lstate=%d shut=%s extra=%s",
+		okTok(reqErr), newc, exitFirst, strings.Join(evs, ","), cga, late, atomic.LoadInt32(&bgFail), atomic.LoadInt32(&bgRetry), lst, okTok(shutErr), extraRes)
 	if reqErr != nil && debugGS {
 		fmt.Fprintf(os.Stderr, "DEBUG %s: req error: %v\n", g.String(), reqErr)
 	}
-	c.Emit("C11", g.String(), impl)
-	c.Count("gs.proto=" + g.proto)
-	c.Count("gs.phase=" + g.phase)
-	c.Count(fmt.Sprintf("gs.stage=%d", g.stage))
-	c.Count("gs.new=" + newc)
-	c.Count(fmt.Sprintf("gs.exitfirst=%d", exitFirst))
+	counts = append(counts, "gs.proto="+g.proto, "gs.phase="+g.phase, fmt.Sprintf("gs.stage=%d", g.stage), "gs.new="+newc,
+		fmt.Sprintf("gs.exitfirst=%d", exitFirst))
+	return impl, counts
 }
 
 func roundTo(v, q int64) int64 {
@@ -319,6 +353,10 @@ func genGS(c *hx.Ctx, i int) gsCase {
 	}
 	if g.stage == int(stagemanager.Upgrading) {
 		g.succ = r.Chance(60)
+	}
+	// (not in phase resp: the scripted bolt upstream cannot interleave another frame into its half-written response)
+	if g.proto != "h1" && g.phase == "wait" && g.hold >= 8 {
+		g.extra = r.Chance(50)
 	}
 	return g
 }
